@@ -1,4 +1,5 @@
 HARNESS = "c01"
+STALE_RERUN = True   # operands also re-run as stale external polynomials (see check)
 LEVEL = "proof"
 """C01 case generator: operation sequences applied in place on a pool of polynomials.
 Every random choice comes from the one `rng` passed in.  The small dictionary arithmetic below only STEERS
